@@ -108,7 +108,7 @@ def plan(name, quick=False):
 NAMES = ['NB6.bare', 'NB6.grafted', 'NB7.copolymer', 'NB9.squarewell', 'quickstart']
 
 
-def run(name, on_step, quick=False, before_solve=None, max_steps=None):
+def run(name, on_step, quick=False, before_solve=None, max_steps=None, before_create=None):
     """re-enact tutorial `name`; after every successful solve call on_step(sp, s, p, res, label).  Returns (#steps solved, #steps)."""
     steps = plan(name, quick)
     if max_steps:
@@ -129,6 +129,8 @@ def run(name, on_step, quick=False, before_solve=None, max_steps=None):
                 s = s_new
             else:
                 G.build(sp, into=s, omit=('domain',))
+            if before_create is not None:
+                before_create(sp, s)
             if how == 'sys.solve':
                 p = None
                 try:
